@@ -9,7 +9,8 @@ package main
 //       wake-up send (hook H5), the loop woken by another caller, more callers than inCh has capacity.
 
 import (
-	"encoding/binary"
+	"strings"
+	"github.com/ryogrid/SamehadaDB/lib/storage/access"
 	"fmt"
 	"math/rand"
 	"os"
@@ -61,8 +62,10 @@ func rmDriver(args []string) error {
 		return rmHist(args[1:])
 	case "gate":
 		return rmGate(args[1:])
+	case "io":
+		return rmIO(args[1:])
 	}
-	return fmt.Errorf("rm hist|gate")
+	return fmt.Errorf("rm hist|gate|io")
 }
 
 func rmHist(args []string) error {
@@ -96,28 +99,26 @@ func rmHist(args []string) error {
 			iotw.Emit(map[string]interface{}{"ev": "Reset", "memKB": memKB})
 			samehada.VerifWrapDisk = func(d disk.DiskManager, dbName string) disk.DiskManager {
 				rec := iorec.NewRec(d)
-				rec.Hook = func(idx int, op *iorec.Op) {
-					switch op.Kind {
-					case "L":
-						recs, ok := parseLog(op.Data)
-						rj := [][]int{}
-						for _, r := range recs {
-							rj = append(rj, []int{r.Lsn, r.Txn, r.Typ, r.Size, r.Prev})
-							if r.Typ == 9 {
-								heap[r.B] = true
-							}
-						}
-						iotw.Emit(map[string]interface{}{"ev": "WLog", "io": idx, "recs": rj, "parsed": ok, "bytes": len(op.Data)})
-					case "P":
-						lsn := int(int32(binary.LittleEndian.Uint32(op.Data[4:8])))
-						iotw.Emit(map[string]interface{}{"ev": "WPage", "io": idx, "p": int(op.Page), "lsn": lsn, "heap": heap[int(op.Page)]})
-					}
+				rec.Hook = ioHook(iotw, heap)
+				// the device is not serialised; in two windows of three the log device is slow, so that log writes
+				// stay in flight while other goroutines evict pages and commit
+				rec.Concurrent = true
+				if w%3 != 0 {
+					rec.LogDelay = time.Duration(200+300*(w%3)) * time.Microsecond
 				}
 				return rec
 			}
 		}
 		e, pm := eng.Open(fmt.Sprintf("vrm%d", dbCounter), memKB, false)
 		samehada.VerifWrapDisk = nil
+		if iotw != nil {
+			// commit return marker (hook H3b: after the commit's log force, before its locks are released)
+			access.VerifTxnEnd = func(kind string, txn *access.Transaction) {
+				if kind == "commit" {
+					iotw.Emit(map[string]interface{}{"ev": "CommitDone", "tid": int(txn.GetTransactionID())})
+				}
+			}
+		}
 		if e == nil {
 			return fmt.Errorf("open: %s", pm)
 		}
@@ -195,6 +196,7 @@ func rmHist(args []string) error {
 			}(ci, seed)
 		}
 		wg.Wait()
+		access.VerifTxnEnd = nil
 		// final read closes the history
 		fin := &callRec{c: 99999999, k: "read", a: 0, b: 1000000}
 		fin.inv = atomic.AddInt64(&clock, 1)
@@ -290,4 +292,87 @@ func rmGate(args []string) error {
 	tw.Emit(map[string]interface{}{"ev": "Reset", "rows": [][]int{}})
 	tw.Emit(map[string]interface{}{"ev": "Gate", "callers": callers, "returned": int(atomic.LoadInt32(&returned))})
 	return tw.Close()
+}
+
+// rm io <iotrace.ndjson> <windows> <gomaxprocs>: storage-boundary events of concurrent runs in which the heap is
+// several times the pool and the log device is slow: writers (single-row updates, inserts) commit while readers
+// (full scans) keep evicting dirty pages, so page writes are issued while log writes are in flight.
+func rmIO(args []string) error {
+	iotw, err := trace.New(args[0])
+	if err != nil {
+		return err
+	}
+	windows, _ := strconv.Atoi(args[1])
+	procs, _ := strconv.Atoi(args[2])
+	runtime.GOMAXPROCS(procs)
+	rng := rand.New(rand.NewSource(envSeed()))
+	pay := strings.Repeat("w", 900)
+	for w := 0; w < windows; w++ {
+		dbCounter++
+		memKB := 96 + 32*(w%2)
+		heap := map[int]bool{}
+		delay := time.Duration(500+500*(w%4)) * time.Microsecond
+		iotw.Emit(map[string]interface{}{"ev": "Reset", "memKB": memKB, "logDelayUs": int(delay / time.Microsecond)})
+		samehada.VerifWrapDisk = func(d disk.DiskManager, dbName string) disk.DiskManager {
+			rec := iorec.NewRec(d)
+			rec.Hook = ioHook(iotw, heap)
+			rec.Concurrent = true
+			rec.LogDelay = delay
+			return rec
+		}
+		e, pm := eng.Open(fmt.Sprintf("vrmio%d", dbCounter), memKB, false)
+		samehada.VerifWrapDisk = nil
+		if e == nil {
+			return fmt.Errorf("open: %s", pm)
+		}
+		access.VerifTxnEnd = func(kind string, txn *access.Transaction) {
+			if kind == "commit" {
+				iotw.Emit(map[string]interface{}{"ev": "CommitDone", "tid": int(txn.GetTransactionID())})
+			}
+		}
+		e.Exec("CREATE TABLE bt(k int, v int, p varchar(1000));")
+		nrows := 140 + rng.Intn(60)
+		for k := 0; k < nrows; k++ {
+			e.Exec(fmt.Sprintf("INSERT INTO bt(k, v, p) VALUES (%d, %d, '%s');", k, k, pay[:600+rng.Intn(300)]))
+		}
+		var ver int64 = 1000
+		var nextKey int64 = 100000
+		var wg sync.WaitGroup
+		stop := int32(0)
+		for g := 0; g < 6; g++ {
+			wg.Add(1)
+			seed := rng.Int63()
+			go func(g int, seed int64) {
+				defer wg.Done()
+				r := rand.New(rand.NewSource(seed))
+				for i := 0; i < 25 && atomic.LoadInt32(&stop) == 0; i++ {
+					var sql string
+					switch {
+					case g < 3 && r.Intn(4) == 0:
+						sql = fmt.Sprintf("INSERT INTO bt(k, v, p) VALUES (%d, %d, '%s');", atomic.AddInt64(&nextKey, 1), atomic.AddInt64(&ver, 1), pay[:500+r.Intn(400)])
+					case g < 3:
+						sql = fmt.Sprintf("UPDATE bt SET v = %d WHERE k = %d;", atomic.AddInt64(&ver, 1), r.Intn(nrows))
+					default:
+						sql = "SELECT k, v FROM bt WHERE v >= 0 OR v >= 0;"
+					}
+					done := make(chan struct{})
+					go func() { e.DB.ExecuteSQL(sql); close(done) }()
+					select {
+					case <-done:
+					case <-time.After(60 * time.Second):
+						atomic.StoreInt32(&stop, 1)
+						iotw.Emit(map[string]interface{}{"ev": "End", "stuck": shortSQL(sql)})
+						return
+					}
+				}
+			}(g, seed)
+		}
+		wg.Wait()
+		access.VerifTxnEnd = nil
+		if atomic.LoadInt32(&stop) != 0 {
+			iotw.Close()
+			os.Exit(3)
+		}
+	}
+	return iotw.Close()
 }
